@@ -6,7 +6,7 @@
 From Coq Require Import Reals QArith Qreals List ZArith Bool Lra Permutation.
 Require Import Cox.Num.Ops Cox.Num.Transfer Cox.Geo.Vec Cox.Model.Mesh Cox.Model.Inside
   Cox.Thm.InsideThm Cox.Thm.InsideTransfer Cox.Thm.MeshTransfer Cox.Thm.Winding3Thm Cox.Thm.WindingThm Cox.Thm.Piercing
-  Cox.Model.Sphero Cox.Thm.SpheroThm.
+  Cox.Model.Sphero Cox.Thm.SpheroThm Cox.Thm.SpheroComplete.
 Import ListNotations.
 
 (* convex: the normalised signed distance the code tests has the sign of the exact side value,
@@ -132,10 +132,30 @@ Theorem C05_spheropolyhedron_accepts_only_near_points_partial :
     in_core Rops Fs x = true \/ exists F y, In F Fs /\ in_faceP F y /\ (dist2 x y <= r2)%R.
 Proof. exact sphero_inside_sound. Qed.
 Print Assumptions C05_spheropolyhedron_accepts_only_near_points_partial.
-(* partial: the converse (every point within r of the core is accepted: the nearest face is among those looked at, and a point over a
-   face but outside its extrusion is near an edge) is NOT proved; it is decided per instance against the exact squared distance to the
-   triangulated surface (Model/Inside.v surface_dist2) - harness kinds spheropolyhedron-algorithm-vs-specification and
-   spheropolyhedron-model-vs-implementation. *)
+(* the face test is also COMPLETE relative to its face: for a well-formed, strictly convex face (every corner a strict left turn about
+   the normal) of any size and every point the algorithm looks at (0 < plane distance <= r), the test - extruded face, edge cylinders,
+   vertex spheres - accepts exactly when some point of the face is within r.  (Proof: walk from a near point of the face towards the foot
+   of the perpendicular; the first side line met is met within its edge; the crossing point is at least as near; spherocylinder lemma.) *)
+Theorem C05_spheropolyhedron_face_test_decides_distance :
+  forall (r2 : R) (F : list (vec3 R)) (x : vec3 R),
+    face_wf F -> strictly_convex F -> to_check Rops r2 F x = true ->
+    (check_face Rops r2 F x = true <-> exists y, in_faceP F y /\ (dist2 x y <= r2)%R).
+Proof. exact check_face_iff. Qed.
+Print Assumptions C05_spheropolyhedron_face_test_decides_distance.
+
+(* hence, for any number of faces: accepted <-> in the core, or some face with 0 < plane distance <= r has a point within r *)
+Theorem C05_spheropolyhedron_algorithm_spec :
+  forall (r2 : R) (Fs : list (list (vec3 R))) (x : vec3 R),
+    (forall F, In F Fs -> face_wf F /\ strictly_convex F) ->
+    (sphero_inside Rops r2 Fs x = true
+     <-> in_core Rops Fs x = true
+         \/ exists F, In F Fs /\ to_check Rops r2 F x = true /\ exists y, in_faceP F y /\ (dist2 x y <= r2)%R).
+Proof. exact sphero_inside_spec. Qed.
+Print Assumptions C05_spheropolyhedron_algorithm_spec.
+(* partial: the one step NOT proved is global - that for a point outside the core and within r of it, the nearest point of the core lies on
+   a face whose plane the point is beyond (so that this face is among those looked at).  It is decided per instance against the exact
+   squared distance to the triangulated surface (Model/Inside.v surface_dist2): harness kinds spheropolyhedron-algorithm-vs-specification
+   and spheropolyhedron-model-vs-implementation. *)
 Example C05_spheropolyhedron_face_example :
-  face_wf ex_face /\ to_check Rops (/ 4)%R ex_face (/ 2, - (3 / 10), 6 / 5)%R = true /\ check_face Rops (/ 4)%R ex_face (/ 2, - (3 / 10), 6 / 5)%R = true.
-Proof. split; [exact ex_face_wf | exact ex_face_accepts]. Qed.
+  face_wf ex_face /\ strictly_convex ex_face /\ to_check Rops (/ 4)%R ex_face (/ 2, - (3 / 10), 6 / 5)%R = true /\ check_face Rops (/ 4)%R ex_face (/ 2, - (3 / 10), 6 / 5)%R = true.
+Proof. split; [exact ex_face_wf | split; [exact ex_face_strictly_convex | exact ex_face_accepts]]. Qed.
